@@ -635,6 +635,11 @@ class Gen:
 
     def taxes(self, cc, allow_included_safe=False):
         rng = self.rng
+        if cc == "ES" and rng.random() < getattr(self, "eqs_bias", 0):
+            # surcharge-heavy documents: several DIFFERENT surcharged rates meet in one category
+            if rng.random() < 0.8:
+                return [{"cat": "VAT", "rate": rng.choice(["standard+eqs", "reduced+eqs", "super-reduced+eqs"])}]
+            return [{"cat": "VAT", "percent": rng.choice(["21%", "10%", "4%"]), "surcharge": rng.choice(["5.2%", "1.4%", "0.5%", "5.20%"])}]
         if cc == "ES":
             k = rng.randrange(18 if getattr(self, "calc_only", False) else 16)   # 16, 17: documents that calculate but do not validate
             if k >= 16:     # a rate KEY that fixes no value (country without a regime): rows with the same key and different
@@ -755,7 +760,7 @@ class Gen:
         nl = rng.randint(1, max_lines) if not big else rng.randint(8, 40)
         for _ in range(nl):
             q = rng.choice(TIE_Q) if tie and rng.random() < 0.5 else self.amt(3000, 3, True)
-            l = {"quantity": q, "item": {"name": "x", "price": self.amt(200000, rng.choice([0, 1, 2, 2, 3, 4, 6]), tie=tie)},
+            l = {"quantity": q, "item": {"name": "x", "price": self.amt(200000, rng.choice(getattr(self, "price_decimals", None) or [0, 1, 2, 2, 3, 4, 6]), tie=tie)},
                  "taxes": self.taxes(cc)}
             d = self.ldc(False, tie)
             ch = self.ldc(True, tie)
@@ -969,3 +974,41 @@ def excess_fixed(doc, pyres):
         if "amount" in a and a.get("percent") is None and parse(a["amount"]).e > c:
             return True
     return False
+
+
+def boundary_pair_docs(rng, n):
+    """Documents built to sit just under a rounding boundary of a CATEGORY accumulation (EUR, 'precise' rule):
+    two rows of one category with different rates, one priced with 2 decimals (its figures carry the working
+    precision of 4), the other with 6; the exact sum of the two rate amounts (or of the two surcharges) ends in
+    .xx496-.xx499 at the fifth and sixth decimal, and the six-decimal addend would round UP at four decimals.
+    Accumulating at the coarser precision therefore presents one minor unit more than the exact sum.
+    Each construction is returned in both row orders, as two lines and as a line plus a document charge."""
+    from fractions import Fraction
+    out = []
+    tries = 0
+    while len(out) < n and tries < n * 200:
+        tries += 1
+        kind = rng.choice(["amount", "surcharge", "surcharge"])
+        if kind == "surcharge":
+            (k1, p1), (k2, p2) = rng.sample([("standard+eqs", Fraction(52, 1000)), ("reduced+eqs", Fraction(14, 1000)), ("super-reduced+eqs", Fraction(5, 1000))], 2)
+        else:
+            (k1, p1), (k2, p2) = rng.sample([("standard", Fraction(21, 100)), ("reduced", Fraction(10, 100)), ("super-reduced", Fraction(4, 100))], 2)
+        a = rng.randrange(100, 90000)                       # price of the coarse row, 2 decimals
+        x1 = p1 * Fraction(a, 100)
+        s1 = Fraction(rha((x1 * 10 ** 4).numerator, (x1 * 10 ** 4).denominator), 10 ** 4)
+        tail = Fraction(rng.randrange(4960, 5000), 10 ** 6)   # wanted (s1 + s2) mod 0.01
+        s2 = Fraction(rng.randrange(1, 3000), 100) + (tail - s1) % Fraction(1, 100)
+        b = s2 / p2
+        bv = rha((b * 10 ** 6).numerator, (b * 10 ** 6).denominator)
+        x2 = p2 * Fraction(bv, 10 ** 6)
+        if Fraction(rha((x2 * 10 ** 6).numerator, (x2 * 10 ** 6).denominator), 10 ** 6) != s2 or bv <= 0:
+            continue
+        rows = [({"quantity": "1", "item": {"name": "coarse", "price": fmt(A(a, 2))}, "taxes": [{"cat": "VAT", "rate": k1}]}),
+                ({"quantity": "1", "item": {"name": "fine", "price": fmt(A(bv, 6))}, "taxes": [{"cat": "VAT", "rate": k2}]})]
+        for order in (rows, rows[::-1]):
+            out.append({"$schema": "https://gobl.org/draft-0/bill/invoice", "uuid": "3aea7b56-59d8-4beb-90bd-f8f280d852a0",
+                        "currency": "EUR", "issue_date": "2022-02-01", "code": "S-1", "tax": {"rounding": PRECISE},
+                        "supplier": {"tax_id": {"country": "ES", "code": "B98602642"}, "name": "P"},
+                        "customer": {"tax_id": {"country": "ES", "code": "54387763P"}, "name": "C"},
+                        "lines": [json.loads(json.dumps(r)) for r in order]})
+    return out
